@@ -285,6 +285,10 @@ func runRHP2(s *Session, exs []exchange, wrongKey bool) {
 				if !s.anyFault() && uint64(len(ex.respEnc)) <= ex.maxResp && ex.respErr == "" {
 					e.violate("C19", "rhp2-valid-message-rejected", fmt.Sprintf("exchange %d: %s response (%d bytes, limit %d) could not be read: %v", i, ex.name, len(ex.respEnc), ex.maxResp, err))
 				}
+				if s.plan.flipAt >= 0 && s.plan.flipDir == 1 && s.tamperedDir(1) && s.plan.cutAt < 0 && s.plan.stallAt < 0 && !s.capped.Load() && !t.IsClosed() && t.PrematureCloseErr() == nil && !c.in.isDead() && !c.out.isDead() {
+					// the altered frame was refused - and must have ended the session
+					e.violate("C19", "rhp2-tamper-session-open", fmt.Sprintf("exchange %d: the renter refused a frame altered in transit (bit %d of stream byte %d; %v) but its transport is neither closed nor failed: the session goes on", i, s.plan.flipBit, s.plan.flipAt, err))
+				}
 				e.logf("ex %d %s: read error", i, ex.name)
 				return
 			default:
